@@ -90,7 +90,9 @@ class Tr:
         self.defs = []            # emitted Definitions, in dependency order
         self.tmp = 0
         self.cse = {}
+        self.ssa = 0
         self.genexps = {}
+        self.methods = {}
         self.inl = 0
         self.nested = {}          # name -> (FunctionDef, outer env) not yet instantiated
         self.instantiated = {}    # name -> (coq name, extra param names, ret type)
@@ -415,13 +417,22 @@ class Tr:
         return self.nested[name][0] if name in self.nested else self.module_funcs[name]
 
     def inline_call(self, call, targets, node):
-        """statement-level call of a local / module helper = its body with the parameters substituted;
-        `targets = f(args)` needs a body that ends in its only `return`.  Returns a statement list or None."""
-        name = call.func.id
-        fn = self.helper_def(name)
-        if any(isinstance(x, ast.Call) and isinstance(x.func, ast.Name) and x.func.id == name for x in ast.walk(fn)):
+        """statement-level call of a local / module helper or of a method of the same object (`self.m(..)`) = its body with
+        the parameters substituted; `targets = f(args)` needs a body that ends in its only `return`.
+        Returns a statement list or None."""
+        if isinstance(call.func, ast.Attribute):
+            name = call.func.attr
+            fn = self.methods[name]
+            formal = fn.args.args[1:]
+            rec = any(isinstance(x, ast.Attribute) and x.attr == name for x in ast.walk(fn))
+        else:
+            name = call.func.id
+            fn = self.helper_def(name)
+            formal = fn.args.args
+            rec = any(isinstance(x, ast.Call) and isinstance(x.func, ast.Name) and x.func.id == name for x in ast.walk(fn))
+        if rec:
             return None                     # recursive: stays a function
-        if call.keywords or len(call.args) != len(fn.args.args) or fn.args.vararg or fn.args.kwarg or fn.args.defaults:
+        if call.keywords or len(call.args) != len(formal) or fn.args.vararg or fn.args.kwarg or fn.args.defaults:
             return None
         body = [b for b in fn.body if not (isinstance(b, ast.Expr) and isinstance(b.value, ast.Constant))]
         rets = [x for x in ast.walk(fn) if isinstance(x, ast.Return)]
@@ -438,7 +449,7 @@ class Tr:
             ret_expr = rets[0].value
             body = body[:-1]
         self.inl += 1
-        params = [a.arg for a in fn.args.args]
+        params = [a.arg for a in formal]
         local = [x for x in self.assigned(body) if x not in params]
         for x in ast.walk(fn):
             if isinstance(x, ast.For):
@@ -575,8 +586,10 @@ class Tr:
                     loop = mk(ast.For(target=g.target, iter=g.iter, body=body, orelse=[]))
                     stmts, changed = [init, cinit, loop] + rest, True
                     continue
-                # targets = helper(args)
-                if isinstance(v, ast.Call) and isinstance(v.func, ast.Name) and self.is_helper(v.func.id) and isinstance(s, ast.Assign):
+                # targets = helper(args)   /   targets = self.method(args)
+                is_meth = (isinstance(v, ast.Call) and isinstance(v.func, ast.Attribute) and isinstance(v.func.value, ast.Name)
+                           and v.func.value.id == 'self' and v.func.attr in self.methods)
+                if isinstance(v, ast.Call) and (is_meth or (isinstance(v.func, ast.Name) and self.is_helper(v.func.id))) and isinstance(s, ast.Assign):
                     inl = self.inline_call(v, s.targets, s)
                     if inl is not None:
                         stmts, changed = inl + rest, True
@@ -664,8 +677,11 @@ class Tr:
         return False
 
     def bind_name(self, env, pyname, ty):
-        env[pyname] = ('v_' + pyname, ty)
-        return 'v_' + pyname
+        """a fresh Coq binder for the Python variable (never shadowed, so values may be substituted freely)"""
+        self.ssa += 1
+        nm = f'v_{pyname}_{self.ssa}'
+        env[pyname] = (nm, ty)
+        return nm
 
     def ann_type(self, ann, node):
         s = ast.unparse(ann).replace(' ', '')
@@ -718,15 +734,19 @@ class Tr:
             # empty containers take their type from the annotation / first use
             if isinstance(s.value, (ast.List, ast.Dict)) and not (s.value.elts if isinstance(s.value, ast.List) else s.value.keys) \
                     and isinstance(target, ast.Name):
+                ty = None
                 if isinstance(s, ast.AnnAssign):
-                    ty = self.ann_type(s.annotation, s)
-                else:
+                    try:
+                        ty = self.ann_type(s.annotation, s)
+                    except SystemExit:
+                        ty = None          # an annotation is a comment: fall back to inference
+                if ty is None:
                     ty = ListCell() if isinstance(s.value, ast.List) else None
                 if ty is None:
                     fail('untyped empty dict', s)
                 init = {'dict': 'dict_empty', 'zdict': '([] : zdict)'}.get(ty, '[]') if isinstance(ty, str) else '[]'
-                nm = self.bind_name(env, target.id, ty)
-                return f'let {nm} := {init} in ' + go(env)
+                env[target.id] = (init, ty)       # a pure value is substituted at its uses
+                return go(env)
             if isinstance(target, ast.Subscript) and isinstance(target.value, ast.Name):
                 d = target.value.id
                 if d not in env:
@@ -735,6 +755,8 @@ class Tr:
                 bv, vv, tv = self.E(s.value, env)
                 dn, dt = env[d]
                 if dt == 'dict':
+                    if tk == 'Z':
+                        vk, tk = f'(Z.to_N {vk})', 'N'
                     self.need(tk, 'N', s)
                     self.need(tv, 'term', s)
                     new = f'dict_set {vk} {vv} {dn}'
@@ -744,7 +766,8 @@ class Tr:
                     new = f'zdict_set {vk} {vv} {dn}'
                 else:
                     fail(f'item assignment on {dt!r}', s)
-                return self.seq(bk + bv, f'let {dn} := {new} in ') + go(env)
+                env[d] = (f'({new})', dt)
+                return self.seq(bk + bv, '') + go(env)
             # a local that only renames another local (or a tuple of them) is that local
             if isinstance(target, ast.Name) and isinstance(s.value, ast.Name) and s.value.id in env:
                 env[target.id] = env[s.value.id]
@@ -755,10 +778,21 @@ class Tr:
                 for e, val in zip(target.elts, vals):
                     env[e.id] = val
                 return go(env)
+            # targets = (e1, e2, ..): element-wise
+            if isinstance(target, ast.Tuple) and isinstance(s.value, ast.Tuple) and len(target.elts) == len(s.value.elts) \
+                    and all(isinstance(e, ast.Name) for e in target.elts):
+                binds, vals = [], []
+                for e in s.value.elts:
+                    b1, v1, t1 = self.E(e, env)
+                    binds += b1
+                    vals.append((v1, t1))
+                for e, val in zip(target.elts, vals):
+                    env[e.id] = val
+                return self.seq(binds, '') + go(env)
             b, v, t = self.E(s.value, env)
             if isinstance(target, ast.Name):
-                nm = self.bind_name(env, target.id, t)
-                return self.seq(b, f'let {nm} := {v} in ') + go(env)
+                env[target.id] = (v, t)           # the value (a temporary or a pure expression) is substituted at its uses
+                return self.seq(b, '') + go(env)
             if isinstance(target, ast.Tuple):
                 # (a, *rest) = xs   or   a, b = pair
                 if len(target.elts) == 2 and isinstance(target.elts[1], ast.Starred):
@@ -779,7 +813,8 @@ class Tr:
             b, v, t = self.E(s.value, env)
             self.need(ty, 'Z', s)
             self.need(t, 'Z', s)
-            return self.seq(b, f'let {nm} := ({nm} + {v})%Z in ') + go(env)
+            env[s.target.id] = (f'({nm} + {v})%Z', 'Z')
+            return self.seq(b, '') + go(env)
         if isinstance(s, ast.Expr) and isinstance(s.value, ast.Call):
             c = s.value
             if isinstance(c.func, ast.Attribute) and c.func.attr == 'append' and isinstance(c.func.value, ast.Name) and len(c.args) == 1:
@@ -794,10 +829,26 @@ class Tr:
                     ty.elem = t
                 elif lst(ty) != t:
                     fail(f'append of {t!r} to list of {lst(ty)!r}', s)
-                return self.seq(b, f'let {nm} := {nm} ++ [{v}] in ') + go(env)
+                env[lname] = (f'({nm} ++ [{v}])', ty)
+                return self.seq(b, '') + go(env)
             b, v, t = self.E(c, env)
             return self.seq(b, '') + go(env)
         if isinstance(s, ast.If):
+            test, negated = s.test, False
+            while True:
+                if isinstance(test, ast.UnaryOp) and isinstance(test.op, ast.Not):
+                    test, negated = test.operand, not negated
+                elif isinstance(test, ast.Compare) and len(test.ops) == 1 and isinstance(test.ops[0], (ast.NotEq, ast.IsNot)) and not (
+                        isinstance(test.ops[0], ast.IsNot) and not (isinstance(test.comparators[0], ast.Constant) and test.comparators[0].value is None)):
+                    test = ast.copy_location(ast.Compare(left=test.left, ops=[ast.Eq() if isinstance(test.ops[0], ast.NotEq) else ast.Is()],
+                                                         comparators=test.comparators), test)
+                    negated = not negated
+                else:
+                    break
+            if negated:
+                # swap the branches; an early exit in the (old) body keeps its meaning because both branches continue with `rest`
+                s = ast.copy_location(ast.If(test=test, body=(s.orelse if s.orelse else [ast.copy_location(ast.Pass(), s)]),
+                                             orelse=s.body), s)
             bt, vt, tt = self.E(s.test, env)
             if tt != 'bool':
                 # truthiness of a list
@@ -811,9 +862,9 @@ class Tr:
                 els = self.B(s.orelse + rest, env, ctx, fin)
                 return self.seq(bt, f'if {vt} then ({thn}) else ({els})')
             W = [x for x in self.assigned([s]) if x in env]
-            wn = [env[x][0] for x in W]
             thn = self.B(s.body, env, ctx, lambda e: 'ret ' + tuple_val([e[x][0] for x in W]))
             els = self.B(s.orelse, env, ctx, lambda e: 'ret ' + tuple_val([e[x][0] for x in W]))
+            wn = [self.bind_name(env, x, env[x][1]) for x in W]
             return self.seq(bt + [(tuple_pat(wn), f'(if {vt} then ({thn}) else ({els}))')], '') + go(env)
         if isinstance(s, ast.For):
             if s.orelse:
@@ -823,8 +874,9 @@ class Tr:
                 fail('iteration over a non-list', s)
             el = lst(ti)
             W = [x for x in self.assigned(s.body) if x in env]
-            wn = [env[x][0] for x in W]
+            init = tuple_val([env[x][0] for x in W])
             benv = dict(env)
+            wn_in = [self.bind_name(benv, x, env[x][1]) for x in W]
             if isinstance(s.target, ast.Name):
                 xpat = self.bind_name(benv, s.target.id, el) if s.target.id != '_' else '_'
             elif isinstance(s.target, ast.Tuple) and len(s.target.elts) == 2 and isinstance(el, tuple) and el[0] == 'pair':
@@ -835,9 +887,10 @@ class Tr:
                 fail('loop target', s)
             inner = Ctx(on_continue=lambda e: 'ret ' + tuple_val([e[x][0] for x in W]), on_return=None)
             body = self.B(s.body, benv, inner, lambda e: 'ret ' + tuple_val([e[x][0] for x in W]))
-            wpat = tuple_pat(wn)
-            fun = f'(fun {wpat} {xpat} => {body})'
-            return self.seq(bi + [(tuple_pat(wn), f'foldM {fun} {vi} {tuple_val(wn)}')], '') + go(env)
+            fun = f'(fun {tuple_pat(wn_in)} {xpat} => {body})'
+            # list element types fixed inside the body (append to an empty list) are shared through the ListCell
+            wn = [self.bind_name(env, x, env[x][1]) for x in W]
+            return self.seq(bi + [(tuple_pat(wn), f'foldM {fun} {vi} {init}')], '') + go(env)
         fail('statement form not in the translated subset', s)
 
     # ------------------------------------------------------------------ functions
@@ -866,7 +919,7 @@ class Tr:
         # closure variables: outer locals the body mentions
         used = {x.id for x in ast.walk(fn) if isinstance(x, ast.Name)}
         extra = [(k, v) for k, v in outer.items() if k in used and k not in params]
-        extra_sig = [f'({v[0]} : {coq_ty(v[1])})' for _, v in extra]
+        extra_sig = [f'({self.bind_name(env, k, v[1])} : {coq_ty(v[1])})' for k, v in extra]
         self.instantiated[name] = (cname, ['cv'] + [v[0] for _, v in extra], rty, arg_tys)
         ctx = Ctx(on_continue=None, on_return=lambda v, t: self.ret_checked(v, t, rty, fn))
         body = self.B(fn.body, env, ctx, lambda e: 'ret tt' if rty == 'unit' else fail(f'{name} can fall off its end', fn))
@@ -958,17 +1011,30 @@ def generate(repo):
     # ---- converter.py: split_proof, the statements before the call of parse_lemmas
     sp = find_func(ctree, 'split_proof')
     body = [s for s in sp.body if not (isinstance(s, ast.Assert) and ast.unparse(s.test) == 'proof')]
-    cut = None
+    # the translated part ends where the proof TEXT is first handed to a parser (parse_lemmas, under whatever name),
+    # together with the label table built so far
+    if not sp.args.args:
+        fail('split_proof: no parameter', sp)
+    proof_param = sp.args.args[0].arg
+    for cls in ast.walk(ctree):
+        if isinstance(cls, ast.ClassDef) and cls.name == 'MetamathConverter':
+            for m in cls.body:
+                if isinstance(m, ast.FunctionDef) and not any(ast.unparse(dd) in ('staticmethod', 'classmethod', 'property') for dd in m.decorator_list):
+                    T.methods[m.name] = m
+    cut, call = None, None
     for i, s in enumerate(body):
-        if any(isinstance(x, ast.Call) and isinstance(x.func, ast.Name) and x.func.id == 'parse_lemmas' for x in ast.walk(s)):
-            cut = i
+        for x in ast.walk(s):
+            if isinstance(x, ast.Call) and any(isinstance(a, ast.Name) and a.id == proof_param for a in x.args):
+                cut, call = i, x
+                break
+        if cut is not None:
             break
     if cut is None:
-        fail('split_proof: call of parse_lemmas not found', sp)
-    call = [x for x in ast.walk(body[cut]) if isinstance(x, ast.Call) and isinstance(x.func, ast.Name) and x.func.id == 'parse_lemmas'][0]
-    if len(call.args) != 2 or not isinstance(call.args[1], ast.Name):
-        fail('split_proof: parse_lemmas(proof, <label table>) expected', call)
-    table_var = call.args[1].id
+        fail('split_proof: the call that parses the label block of the proof text was not found', sp)
+    tables = [a.id for a in call.args if isinstance(a, ast.Name) and a.id != proof_param]
+    if len(tables) != 1:
+        fail('split_proof: <parser>(proof, <label table>) expected', call)
+    table_var = tables[0]
     env = {'statement': ('v_statement', 'ax')}
     term = T.B(body[:cut], env, Ctx(), lambda e: 'ret ' + (e[table_var][0] if table_var in e and e[table_var][1] == 'zdict'
                                                            else fail('split_proof: label table is not a dict[int, str]', sp)))
@@ -991,6 +1057,8 @@ def generate(repo):
     for i, s in enumerate(main.body):
         if isinstance(s, ast.Assign) and len(s.targets) == 1 and isinstance(s.targets[0], ast.Name):
             idx.setdefault(s.targets[0].id, i)
+        elif isinstance(s, ast.AnnAssign) and isinstance(s.target, ast.Name) and s.value is not None:
+            idx.setdefault(s.target.id, i)
     if 'extracted_axioms' not in idx or 'extracted_claims' not in idx or idx['extracted_axioms'] > idx['extracted_claims']:
         fail('main: extracted_axioms / extracted_claims assembly not found', main)
     env = {'args.target': ('target', 'label')}
@@ -1006,7 +1074,7 @@ def generate(repo):
     first_def = next((i for i, s in enumerate(ep.body) if isinstance(s, ast.FunctionDef) and s.name != 'stack'), None)
     if first_def is None:
         fail('exec_proof: nested helpers not found', ep)
-    check_prologue(ep.body[:first_def])
+    check_prologue([x for x in ep.body[:first_def] if not (isinstance(x, ast.Expr) and isinstance(x.value, ast.Constant))])
     env = {'target': ('target', 'label'), 'proofexp': ('proofexp', 'pexp')}
     stmts = ep.body[first_def:]
     loops = [i for i, s in enumerate(stmts) if isinstance(s, ast.For)]
@@ -1026,19 +1094,21 @@ def generate(repo):
         used = {x.id for x in ast.walk(loop) if isinstance(x, ast.Name)}
         live = [(k, v) for k, v in env1.items() if k in used and k not in W and k != loop.target.id]
         benv = dict(env1)
+        import re as _re
+        sig = ' '.join(f'({v[0] if _re.fullmatch(r"[A-Za-z_][A-Za-z_0-9]*", v[0]) else T.bind_name(benv, k, v[1])} : {coq_ty(v[1])})' for k, v in live)
+        wsig = ' '.join(f'({T.bind_name(benv, x, env1[x][1])} : {coq_ty(env1[x][1])})' for x in W)
         xn = T.bind_name(benv, loop.target.id, lst(ti))
         inner = Ctx(on_continue=lambda e: 'ret ' + tuple_val([e[x][0] for x in W]), on_return=None)
         body = T.B(loop.body, benv, inner, lambda e: 'ret ' + tuple_val([e[x][0] for x in W]))
-        sig = ' '.join(f'({v[0]} : {coq_ty(v[1])})' for _, v in live)
-        wsig = ' '.join(f'({env1[x][0]} : {coq_ty(env1[x][1])})' for x in W)
         wty = ' * '.join(coq_ty(env1[x][1]) for x in W) if W else 'unit'
         T.defs.append('(* translate.py exec_proof: one iteration of `for lemma in exported_proof.applied_lemmas` *)\n'
                       f'Definition gen_exec_proof_step (cv : conv) {sig} {wsig} ({xn} : {coq_ty(lst(ti))}) : M ({wty}) :=\n  ({body})%gen.')
-        wn = [env1[x][0] for x in W]
+        init = tuple_val([env1[x][0] for x in W])
         call = 'gen_exec_proof_step cv ' + ' '.join(v[0] for _, v in live)
+        wn = [T.bind_name(env1, x, env1[x][1]) for x in W]
         fold = f'(fun {tuple_pat(wn)} x => {call} {" ".join(wn)} x)' if len(wn) != 1 else f'({call})'
         rest = T.B(stmts[li + 1:], env1, Ctx(), lambda e: 'ret tt')
-        return T.seq(bi, f'{tuple_pat(wn)} <- foldM {fold} {vi} {tuple_val(wn)} ;; ') + rest
+        return T.seq(bi, f'{tuple_pat(wn)} <- foldM {fold} {vi} {init} ;; ') + rest
 
     term = T.B(stmts[:li], env, Ctx(), after_prefix)
     T.defs.append('(* translate.py exec_proof *)\n'
